@@ -770,13 +770,7 @@ func main() {
 	for _, o := range m.ops {
 		all = append(all, o.name)
 	}
-	phases := []phase{{"full", all, r.Pick(4, 5)}}
-	if r.Thorough() {
-		phases = append(phases,
-			phase{"withdraw-group", []string{"empty", "xfer", "xfer2", "w0", "w1", "w2", "retdep"}, 6},
-			phase{"proposal-group", []string{"empty", "xfer", "prop", "rev1", "rev2", "trk1", "trk2"}, 6},
-		)
-	}
+	phases := []phase{{"full", all, r.Pick(4, 6)}}
 	tot := &explorer{states: map[string]bool{}, confirmed: map[string]bool{}, found: map[string]*found{}}
 	exhaustive := true
 	var phaseInfo []map[string]interface{}
